@@ -22,7 +22,7 @@
    refusal inside the maximum"; unconditionally: quotas stay within [0, maximum]; locally: the post-packet block
    releases a held-back message as soon as quota is available. *)
 From MV Require Import Base.Val Session.Pkt Session.Inflight Session.InflightProofs Session.QosSpecs
-  Session.QosProofs Session.QosOrder Session.QosLive Session.QosSound Session.QosWitness.
+  Session.QosProofs Session.QosOrder Session.QosLive Session.QosSound Session.QosWitness Conc.Quota Conc.QuotaProofs.
 Open Scope N_scope.
 
 (* unconditional, all histories, all oracles: the counters never leave [0, maximum] *)
@@ -77,6 +77,27 @@ Theorem C11_all_released : forall c, cfg_ok c -> forall acks s,
   forall k r, get k (s_infl s) = Some r -> (r_expiry r < 0)%Z ->
   In (OPkt T_PUBLISH k false (r_qos r) (r_uid r) 0) (concat (snd (run c s acks))).
 Proof. exact all_released. Qed.
+
+(* CONCURRENT deliveries to one client (interleaving model Conc/Quota.v: read the quota, take a unit atomically, then be
+   queued or - queue full - return the unit by an atomic saturating increment; acknowledgements return units too): for EVERY
+   schedule of n deliveries, whichever of them find the queue full, the messages in transit never outnumber the receive
+   maximum.  Tied to the code by forced schedules across publishToClient's rollback (schedule points write.beforeLock and
+   publish.afterAlias). *)
+Theorem C11_quota_all_schedules : forall rm n full sched,
+  (0 <= rm)%Z ->
+  let '(q, ths) := qrun false rm full rm (repeat QStart n) sched in
+  (in_transit ths <= rm)%Z /\ (0 <= q <= rm)%Z.
+Proof. exact quota_all_schedules. Qed.
+
+(* returning the unit by storing back the value read at the start hands back a unit another delivery took in between:
+   a schedule of four deliveries ends with three messages in transit under receive maximum 2; the same schedule is
+   harmless with the atomic increment *)
+Theorem C11_refuted_snapshot_restore : exists rm full sched,
+  in_transit (snd (qrun true rm full rm (repeat QStart 4) sched)) = 3%Z /\
+  in_transit (snd (qrun false rm full rm (repeat QStart 4) sched)) = 2%Z /\ rm = 2%Z.
+Proof.
+  exists 2%Z, (fun j => Nat.eqb j 0), [0; 0; 1; 1; 1; 0; 2; 2; 2; 3; 3; 3]%nat. vm_compute. repeat split; reflexivity.
+Qed.
 
 (* receive side: quota + (stored own QoS 2 exchanges) >= the advertised maximum; so with fewer exchanges stored
    than the maximum the quota is not 0 ... *)
@@ -151,6 +172,8 @@ Print Assumptions C11_out_modulo_findings.
 Print Assumptions C11_out.
 Print Assumptions C11_live_modulo_findings.
 Print Assumptions C11_all_released.
+Print Assumptions C11_quota_all_schedules.
+Print Assumptions C11_refuted_snapshot_restore.
 Print Assumptions C11_in_modulo_findings.
 Print Assumptions C11_accepted_within_quota.
 Print Assumptions C11_progress_partial.
